@@ -16,6 +16,10 @@ var coFuncs = map[string]LGFunction{
 	"wrap":    coWrap,
 }
 
+// maxResumeDepth bounds how deep coroutines may resume one another, as
+// LUAI_MAXCCALLS does in Lua 5.1.
+const maxResumeDepth = 200
+
 func coCreate(L *LState) int {
 	fn := L.CheckFunction(1)
 	newthread, _ := L.NewThread()
@@ -71,6 +75,17 @@ func resumeThread(L *LState, wrapped bool) int {
 		L.Push(LString(msg))
 		return 2
 	}
+	if L.G.resumeDepth >= maxResumeDepth {
+		// every nested resume runs on the Go stack of its resumer (Lua 5.1: LUAI_MAXCCALLS)
+		msg := "C stack overflow"
+		if wrapped {
+			L.RaiseError(msg)
+			return 0
+		}
+		L.Push(LFalse)
+		L.Push(LString(msg))
+		return 2
+	}
 	if th.stack.IsEmpty() {
 		// the body was a Go function that yielded (coroutine.wrap(coroutine.yield)): it
 		// has no frame to continue, the values it is resumed with are its results
@@ -108,6 +123,8 @@ func resumeThread(L *LState, wrapped bool) int {
 		return 2
 	}
 	top := L.GetTop()
+	L.G.resumeDepth++
+	defer func() { L.G.resumeDepth-- }()
 	threadRun(th)
 	return L.GetTop() - top
 }
